@@ -2,6 +2,7 @@ package rules
 
 import (
 	"fmt"
+	"strings"
 
 	"golang.org/x/tools/go/ssa"
 
@@ -198,6 +199,35 @@ func c18(w *core.World, r *core.Report) {
 		}
 		r.Extra["candidate_success_returns"] = nSucc
 		r.Extra["candidate_error_returns_after_edit"] = nErr
+	}
+
+	// driver wrappers
+	r.Rule("DRIVER-OUTCOME", 2, "the scrapligo driver wrappers of the state-changing RPCs without a reply document (Commit, Discard) return nil only when the library call returned no error AND the reply was not marked Failed (resp.Failed == nil, which scrapligo sets for any rpc-error element): otherwise a refused commit is reported as success and the candidate is never discarded.")
+	for _, n := range []string{"Commit", "Discard"} {
+		f := w.Func("pkg/datastore/target/netconf/driver/scrapligo", "ScrapligoNetconfTarget", n)
+		if f == nil {
+			continue
+		}
+		for _, ret := range core.Returns(f) {
+			e := errorOperand(ret)
+			if e == nil || !core.IsNilConst(e) {
+				continue
+			}
+			okFailed := false
+			for _, g := range core.GuardsOf(ret) {
+				x, nilOnTrue, isNil := core.NilTest(g.If.Cond)
+				if isNil && nilOnTrue == g.CondTrue() && strings.HasSuffix(core.FieldOf(x), "NetconfResponse.Failed") {
+					okFailed = true
+				}
+			}
+			okErr := false
+			for _, c := range core.Calls(f) {
+				if cc, isCall := c.(*ssa.Call); isCall && strings.HasPrefix(core.CalleeKey(c), "github.com/scrapli/scrapligo/driver/netconf.Driver.") && core.GuardedByErrNil(ret, cc) {
+					okErr = true
+				}
+			}
+			r.Check(okFailed && okErr, "DRIVER-OUTCOME", core.Site(f, "success only if !Failed"), w.InstrPos(ret), "success must imply the library call succeeded and the reply carries no rpc-error")
+		}
 	}
 
 	// dispatch
